@@ -15,6 +15,7 @@ import itertools
 import os
 
 from vf import core
+from vf import driverfail
 from vf.oracles import metseries
 
 PROPERTY = "C16"
@@ -327,6 +328,9 @@ def run(ctx):
         "numeric forcing values are seeded and irrelevant to the property; all entries of a list are distinct",
     ]
     ctx.run_cases(case_series, enumerate_cases(ctx.tier), sub="series")
+    # step i stays step i when another step of the series cannot be solved (serial consumers of the step count)
+    ctx.run_cases(driverfail.case_failing_step, [c for c in driverfail.cases(ctx.tier) if not c["driver"].startswith("parallel") and c["kind"] != driverfail.OVERSUBSCRIBED],
+                  sub="series with an unusable step: deliver nothing or deliver it right", chunksize=1)
     from vf import histories
 
     histories.run(ctx, __name__, 2 if ctx.tier == "quick" else 3)
